@@ -126,6 +126,15 @@ CHECKS = {
               "implementation: arrays touching their extremes, protection on, all kernels: every element in [min, max] and within the bound."),
         note=TB_COMMON + "Stdlib real axioms via Flocq. The composition clamp o kernel is observed (oracle), the flag/clamp sites are regex facts over the source text.",
         technique="Coq proof over Flocq (order lemmas from Bcompare_correct) + source-fact obligations + oracle on extreme-touching data"),
+    "C07": dict(
+        category="proof", design_ref="DESIGN.md §4 C07",
+        text=("Proved: for every element type, size-field width, array length and *every* kernel stream size k, the returned size is at most raw + 128 + "
+              "0.1 % of raw, given only that each path's raw-copy guard fires no later than raw-stream size + 8 and the back end's worst-case framing "
+              "(hypothesis wrap(s) <= s + s/3277 + 40, sampled); constant streams are below 64 bytes for all ten types. Obligations on facts "
+              "regenerated from the source: all 52 kernel-level compress functions (float, double, 8 integer types, PW_REL variants) end in a "
+              "raw-copy guard and both dispatchers guard their four arms. On the implementation: incompressible and constant arrays, all modes."),
+        note=TB_COMMON + "zlib/zstd framing is an assumption (sampled by the lz cases); the guards' exact thresholds are facts matched by regular expressions over the source text.",
+        technique="Coq proof (linear arithmetic over stream-size formulas, section hypothesis for the back end) + source-fact obligations + size oracle"),
 }
 
 NOT_YET = {}
